@@ -204,7 +204,8 @@ func (g *c01Gen) opError(t string) *tx {
 		return &tx{K: "bin", Op: []token.Token{token.LSS, token.GEQ}[r.Intn(2)], Kids: []*tx{v(tt), v(tt)}}
 	case 7:
 		if t == "int" || t == "MyInt" {
-			return &tx{K: "lit", Lit: []string{"1.5", "0.25"}[r.Intn(2)], Val: []float64{1.5, 0.25}[r.Intn(2)]}
+			i := r.Intn(2)
+			return &tx{K: "lit", Lit: []string{"1.5", "0.25"}[i], Val: []float64{1.5, 0.25}[i]}
 		}
 		return &tx{K: "lit", Lit: `"str"`, Val: "str"}
 	}
@@ -318,6 +319,14 @@ func (g *c01Gen) expr(t string, d int) *tx {
 		}
 		return &tx{K: "slice", Kids: []*tx{sub("string"), intLit(r), nil}}
 	case "bool":
+		if r.Intn(8) == 0 { // an interface value compared with a concrete one, in both orders
+			tt := []string{"int", "string", "float64", "bool", "*int", "S", "MyInt"}[r.Intn(7)]
+			kids := []*tx{{K: "var", Name: "pa"}, sub(tt)}
+			if r.Intn(2) == 0 {
+				kids[0], kids[1] = kids[1], kids[0]
+			}
+			return &tx{K: "bin", Op: []token.Token{token.EQL, token.NEQ}[r.Intn(2)], Kids: kids}
+		}
 		switch r.Intn(5) {
 		case 0:
 			tt := []string{"int", "float64", "string"}[r.Intn(3)]
